@@ -149,7 +149,9 @@ def tensors(data):
 
 
 def cmp_vec(ctx, name, impl, model, case, sig, th, scale):
-    ctx.point(name, "property", impl, model, case, scale=scale, rtol=2e-6, atol=1e-8, sig=sig, theorem=th)
+    # both sides are float64 evaluations of the same formula: agreement is ~1e-12; 5e-8 leaves room for torch's softplus
+    # threshold (abs. error 2e-9 per hidden unit in an energy) and catches single-precision round trips (~6e-8 and above)
+    ctx.point(name, "property", impl, model, case, scale=scale, rtol=5e-8, atol=1e-10, sig=sig, theorem=th)
 
 
 def one_case(ctx, case):
@@ -164,7 +166,8 @@ def one_case(ctx, case):
     nontriv = (nb >= 2) if kind != "pos" else (len({tuple(s) for s, _ in data}) >= 2)
     ctx.case({k: case[k] for k in ("kind", "n", "h", "am", "ph", "data")}, nontrivial=nontriv,
              sample={"kind": kind, "n": n, "h": h, "a": a, "N": len(data), "bases": sorted({b for _, b in data}), "am_b": am["b"]})
-    ctx.count(f"kind={kind}"); ctx.count(f"n={n}"); ctx.count(f"N={len(data)}"); ctx.count(f"distinct_rot_bases={nb}")
+    ctx.count(f"kind={kind}"); ctx.count(f"n={n}"); ctx.count(f"N={len(data)}" if len(data) < 50 else "N>=50"); ctx.count(f"distinct_rot_bases={nb}" if nb < 50 else "distinct_rot_bases>256" if nb > 256 else "distinct_rot_bases>=50")
+    ctx.count("regime=" + case.get("regime", "ordinary"))
     order = ORDER_RBM if kind != "dm" else ORDER_PRBM
     if kind == "pos":
         st = qc.make_positive(n, h, am)
@@ -184,7 +187,7 @@ def one_case(ctx, case):
         g = [t.numpy().copy() for t in st.gradient(S, B)]
         pp = [t.numpy().copy() for t in st.positive_phase_gradients(S, B)]
         ex = [t.numpy().copy() for t in st.compute_exact_gradients(S, space_t, B)]
-        fd = [fd_grad(lambda p: nll_cplx(p, ph, data, space, D), am, order), fd_grad(lambda p: nll_cplx(am, p, data, space, D), ph, order)]
+        fd = [] if case.get("no_fd") else [fd_grad(lambda p: nll_cplx(p, ph, data, space, D), am, order), fd_grad(lambda p: nll_cplx(am, p, data, space, D), ph, order)]
         params = [am, ph]
     else:
         st = qc.make_density(n, h, a, am, ph)
@@ -214,7 +217,7 @@ def one_case(ctx, case):
                case, sig=f"{kind}/gradient-after-reinit", theorem=TH[kind])
     scale = max(1.0, float(max(np.max(np.abs(x)) for x in g)))
     # finite differences of the independent NLL  == exact gradients
-    for i, (e, d_) in enumerate(zip(ex, fd)):
+    for i, (e, d_) in enumerate(zip(ex, fd if not case.get("no_fd") else [])):
         tol = 2e-5 * max(1.0, np.max(np.abs(d_)))
         if kind == "dm":
             tol = max(tol, 1e-6 * len(e))
@@ -368,6 +371,38 @@ def gen_cases(ctx, thorough):
                     am = qc.rand_rbm_params(rng, n, h, scale)
                     ph = qc.rand_rbm_params(rng, n, h, scale) if kind == "cplx" else None
                 plan.append({"kind": kind, "n": n, "h": h, "a": a, "am": am, "ph": ph, "data": mk_data(rng, n, N, kind)})
+        # small-amplitude regime (|<s|U|psi>|^2 down to ~1e-12): strongly negative visible biases, outcomes with many 1s
+        if kind != "pos":
+            for _ in range(6 if thorough else 1):
+                n = rng.choice([2, 3]); h = rng.choice([1, 2]); a = rng.choice([1, 2])
+                if kind == "dm":
+                    am = qc.rand_prbm_params(rng, n, h, a, 0.4); ph = qc.rand_prbm_params(rng, n, h, a, 0.6, d_zero=True)
+                else:
+                    am = qc.rand_rbm_params(rng, n, h, 0.4); ph = qc.rand_rbm_params(rng, n, h, 0.6)
+                n = 3
+                if kind == "dm":
+                    am = qc.rand_prbm_params(rng, n, h, a, 0.4); ph = qc.rand_prbm_params(rng, n, h, a, 0.6, d_zero=True)
+                else:
+                    am = qc.rand_rbm_params(rng, n, h, 0.4); ph = qc.rand_rbm_params(rng, n, h, 0.6)
+                am["b"] = [-rng.uniform(9.0, 14.0) for _ in range(n)]
+                data = mk_data(rng, n, 4, kind)
+                # outcomes with 1s on the reference-basis sites and exactly one rotated site: the rotated amplitude is ~exp(-sum b)/2
+                one_rot = lambda: "".join(rng.choice("XY") if j == jj else "Z" for j in range(n))  # noqa: E731
+                fixed = []
+                for i, (s_, b_) in enumerate(data):
+                    jj = rng.randrange(n)
+                    fixed.append(([1] * n, one_rot()) if i < 2 else (s_, b_))
+                data = fixed
+                plan.append({"kind": kind, "n": n, "h": h, "a": a, "am": am, "ph": ph, "data": data, "regime": "small-amplitude"})
+        # one batch with more than 256 distinct bases (group labels beyond one byte)
+        if kind == "cplx":
+            n = 6
+            strings = ["".join(t) for t in itertools.product("XYZ", repeat=n)]
+            rng.shuffle(strings)
+            rows = 270 if thorough else 262
+            data = [([rng.randint(0, 1) for _ in range(n)], strings[i]) for i in range(rows)]
+            plan.append({"kind": kind, "n": n, "h": 1, "a": 1, "am": qc.rand_rbm_params(rng, n, 1, 0.5), "ph": qc.rand_rbm_params(rng, n, 1, 0.5),
+                         "data": data, "regime": "many-bases", "no_fd": True})
     return plan
 
 
@@ -375,7 +410,7 @@ def run(ctx):
     ctx.rule = RULE
     for k_, case in enumerate(gen_cases(ctx, ctx.tier == "thorough")):
         one_case(ctx, case)
-        if k_ % 2 == 0:
+        if k_ % 2 == 0 and not case.get("regime"):
             history_probe(ctx, case)
     for kind in ("cplx", "dm"):
         for _ in range(4 if ctx.tier == "thorough" else 1):
